@@ -81,7 +81,14 @@ func walkCheckBudget(prop string, sigPrefixes []string, quickBound, thoroughBoun
 		}
 		env := map[string]string{"VERIF_PROP": prop, "VERIF_TIER": c.Tier, "VERIF_BOUND": fmt.Sprint(bound), "VERIF_BUDGET_S": fmt.Sprint(budget), "GOMAXPROCS": "1"}
 		sub := vc.NewReport(prop, c.Tier)
-		vc.RunHarnessShards(sub, vc.HarnessRun{Bin: bin, Env: env, Tag: "walk-" + prop}, 16, 16)
+		shards := 16
+		if c.Thorough {
+			// a shard process cannot free the goroutines of abandoned executions and stops at its memory ceiling:
+			// four times as many, shorter-lived shards (16 at a time) cover more within the same wall-clock time
+			shards = 64
+			env["VERIF_BUDGET_S"] = fmt.Sprint(budget / 4)
+		}
+		vc.RunHarnessShards(sub, vc.HarnessRun{Bin: bin, Env: env, Tag: "walk-" + prop}, shards, 16)
 		// keep only the oracle signatures that belong to this property
 		c.R.Merge(sub, func(sig string) bool {
 			for _, p := range sigPrefixes {
@@ -106,12 +113,12 @@ func poolCheck(c *Ctx, prop string, sigPrefixes []string) {
 		c.R.BrokenCheck("%v", err)
 		return
 	}
-	bound, budget := "3", "25"
+	bound, budget, shards := "3", "25", 16
 	if c.Thorough {
-		bound, budget = "4", "240"
+		bound, budget, shards = "4", "60", 64 // shorter-lived shards: see walkCheckBudget
 	}
 	sub := vc.NewReport(prop, c.Tier)
-	vc.RunHarnessShards(sub, vc.HarnessRun{Bin: bin, Env: map[string]string{"VERIF_TIER": c.Tier, "VERIF_BOUND": bound, "VERIF_BUDGET_S": budget, "GOMAXPROCS": "1"}, Tag: "pool-" + prop}, 16, 16)
+	vc.RunHarnessShards(sub, vc.HarnessRun{Bin: bin, Env: map[string]string{"VERIF_TIER": c.Tier, "VERIF_BOUND": bound, "VERIF_BUDGET_S": budget, "GOMAXPROCS": "1"}, Tag: "pool-" + prop}, shards, 16)
 	c.R.Merge(sub, func(sig string) bool {
 		for _, p := range sigPrefixes {
 			if strings.HasPrefix(sig, p) {
